@@ -64,6 +64,11 @@ structure Ctx where
   validExtern : Str → Bool
   /-- … and the kind is not hash / url / dependency -/
   validExport : Str → Bool
+  /-- which of the two behaviours `export` has on a *definition* node: `true` = the node's
+      export name is overwritten (the definition is renamed; pinned behaviour, DESIGN §10 row 4,
+      owned by C02/C03), `false` = the definition keeps its defining name and the further name
+      is only an entry of the export map.  Probed from the implementation by the harness. -/
+  exportRenamesDefinition : Bool := true
 
 inductive NodeKind where
   /-- `NodeKind::Definition` with `item_kind = ItemKind::Type(ty)` -/
@@ -534,7 +539,7 @@ def exportNode (ctx : Ctx) (g : Graph) (n : Nat) (name : Str) : R :=
         -- a type definition keeps the name it was defined with; a further name is only an
         -- additional entry of the export map
         let nd' : Node := match nd.kind with
-          | .definition _ => nd
+          | .definition _ => if ctx.exportRenamesDefinition then { nd with exp := some name } else nd
           | _ => { nd with exp := some name }
         let g1 := g.setNode n nd'
         ({ g1 with exports := alInsert g1.exports name n }, .ok .unit)
